@@ -24,8 +24,9 @@ REPO = os.environ.get("VERIF_REPO", "/repo")
 COQ = os.path.join(VERIF, "coq")
 CACHE = os.path.join(VERIF, ".cache")
 TARGET = os.path.join(CACHE, "target")
-REPLAYS = os.path.join(VERIF, "replays")
-EVIDENCE = os.path.join(VERIF, "evidence")
+_ALT = os.path.realpath(REPO) != "/repo"   # a scratch worktree is being checked: keep /verif's own evidence untouched
+REPLAYS = os.path.join(CACHE, "alt", "replays") if _ALT else os.path.join(VERIF, "replays")
+EVIDENCE = os.path.join(CACHE, "alt", "evidence") if _ALT else os.path.join(VERIF, "evidence")
 GUARD = "pendulum_project_ntpd_rs_verif"
 NCPU = os.cpu_count() or 4
 
@@ -432,11 +433,14 @@ class Check:
     # --- proof gate
     def run_gate(self, extra_props=()):
         from tools import constants
-        ch = constants.regenerate()
-        if ch.get("errors"):
-            for e in ch["errors"]:
-                self.not_shown.append("constants translator: " + e)
+        consts = constants.regenerate()
         g = proof_gate(self.prop, self.tier, extra_props)
+        ch = {"changed": False}
+        for f, r in consts.items():
+            if f in g.cone:
+                ch["changed"] = ch["changed"] or r["changed"]
+                for e in r["errors"]:
+                    self.not_shown.append("constants translator (%s): %s" % (f, e))
         self.gate = g
         self.cov["obligations"] = g.obligations
         self.cov["discharged"] = g.discharged
